@@ -175,10 +175,10 @@ class MetaUnionRef(type):
         return info
 
     def _to_buffer(cls, buffer, offset, value, info=None):
-        if isinstance(value, cls):  # binary copy
-            buffer.update_from_xbuffer(
-                offset, value._buffer, value._offset, value._size
-            )
+        if isinstance(value, cls):
+            # another union reference: refer to what it refers to (the offset
+            # it stores is relative to ITS slot and cannot be copied verbatim)
+            cls._to_buffer(buffer, offset, value.get())
         else:
             if value is None:
                 xobj = None
